@@ -15,10 +15,34 @@ import json, os, subprocess, sys, time, glob
 from vlib import *
 
 MODELLED = ["plain", "nullproto", "arrow", "bound", "class", "strobj", "sargs"]
-MONITORED = ["func", "args", "u8", "math", "global", "gomap", "goslice", "gostruct", "dyn"]
+ARRAYS = ["arr", "sparr"]                       # dense [101,102,103] / sparse (a[5000]) arrays: monitored (modelled by C07)
+TEMPLATED = ["fproto", "aproto", "sproto", "dproto", "taproto", "mapproto", "setproto", "promproto", "symproto", "regproto",
+             "json", "math", "global"]           # lazily-templated built-in prototypes / namespace objects (fresh runtime per case)
+MONITORED = ARRAYS + TEMPLATED + ["func", "args", "u8", "gomap", "goslice", "gostruct", "dyn"]
+GENERAL_MONITORED = [k for k in MONITORED if k not in TEMPLATED or k in ("math", "global")]
 WRAPPERS = {"gomap", "goslice", "gostruct", "dyn"}          # documented non-ordinary variants: key order not checked
 DEFAULT_PROTO = {"plain": "O", "nullproto": "null", "arrow": "F", "bound": "F", "class": "F", "strobj": "?", "sargs": "O"}
 
+# well-known symbols are SYM[3..] of the harness prelude
+WK = {"iterator": "y3", "hasInstance": "y4", "toStringTag": "y5", "toPrimitive": "y6", "unscopables": "y7", "match": "y9",
+      "matchAll": "y10", "replace": "y11", "search": "y12", "split": "y13"}
+# ECMA-262 attributes of the well-known-symbol properties of the templated built-ins: D/writable/enumerable/configurable
+# or A/enumerable/configurable (accessor with a getter)
+EXPECTED_SYMS = {
+    "fproto": {"hasInstance": "D/f/f/f"},                                   # 20.2.3.6
+    "aproto": {"iterator": "D/t/f/t", "unscopables": "D/f/f/t"},            # 23.1.3.37/38
+    "sproto": {"iterator": "D/t/f/t"},                                      # 22.1.3.36
+    "dproto": {"toPrimitive": "D/f/f/t"},                                   # 21.4.4.45
+    "taproto": {"iterator": "D/t/f/t", "toStringTag": "A/f/t"},             # 23.2.3.37/38
+    "mapproto": {"iterator": "D/t/f/t", "toStringTag": "D/f/f/t"},          # 24.1.3.12/13
+    "setproto": {"iterator": "D/t/f/t", "toStringTag": "D/f/f/t"},          # 24.2.3.11/12
+    "promproto": {"toStringTag": "D/f/f/t"},                                # 27.2.5.5
+    "symproto": {"toPrimitive": "D/f/f/t", "toStringTag": "D/f/f/t"},       # 20.4.3.5/6
+    "regproto": {"match": "D/t/f/t", "matchAll": "D/t/f/t", "replace": "D/t/f/t", "search": "D/t/f/t", "split": "D/t/f/t"},
+    "json": {"toStringTag": "D/f/f/t"},                                     # 25.5.3
+    "math": {"toStringTag": "D/f/f/t"},                                     # 21.3.1.9
+    "global": {},
+}
 SIG_GOSLICE_GROWS = "goslice:non-extensible-slice-grows"
 SIG_GOSLICE_SHRINKS = "goslice:length-shrink-removes-nonconfigurable-elements"
 
@@ -210,14 +234,163 @@ def gen_desc(rng):
     return ["-", "-", e, c, "-", "-"]     # generic (possibly empty)
 
 
+FAR_IDX = [4097, 5000, 100000]
+
+
+def gen_array_case(rng, maxops=40):
+    """arrays (monitored): index defines incl. far indices that force the dense->sparse switch, length changes"""
+    n = rng.choice([1, 2, 2, 3])
+    objs = []
+    for i in range(n):
+        kind = rng.choice(ARRAYS) if (i == 0 or rng.random() < 0.5) else "plain"
+        proto = "-" if kind in ARRAYS else "O"
+        if i > 0 and rng.random() < 0.3:
+            proto = "o%d" % rng.randrange(0, i)
+        objs.append((kind, proto))
+    arrs = [i for i, (k, _) in enumerate(objs) if k in ARRAYS]
+    lens = ["l0", "l1", "l2", "l3", "n0", "n5", "l7"]
+
+    def akey():
+        r = rng.random()
+        if r < 0.3:
+            return rng.choice(["i", "I"]) + str(rng.choice(FAR_IDX))
+        if r < 0.75:
+            return rng.choice(["i", "I"]) + str(rng.choice(IDX))
+        if r < 0.85:
+            return "slength"
+        return gen_key(rng)
+    nops = rng.randrange(4, maxops + 1)
+    ops = []
+    for j in range(nops):
+        o = "o%d" % (rng.choice(arrs) if rng.random() < 0.85 else rng.randrange(n))
+        dump = "D" if (rng.random() < 0.45 or j == nops - 1) else "-"
+        r = rng.random()
+        if r < 0.35:
+            ops.append(["def", rng.choice(["O", "R", "R", "G"]), o, akey()] + gen_desc(rng) + [dump])
+        elif r < 0.60:      # length change through every entry point
+            v = rng.choice(lens)
+            m = rng.random()
+            if m < 0.3:
+                ops.append(["set", rng.choice(["S", "T"]), o, "slength", v, "=", dump])
+            elif m < 0.6:
+                ops.append(["set", "R", o, "slength", v, rng.choice(["=", "=", o]), dump])
+            elif m < 0.75:
+                ops.append(["set", "G", o, "slength", v, "=", dump])
+            else:
+                ops.append(["def", rng.choice(["O", "R"]), o, "slength", v, gen_flag(rng), "-", "-", "-", "-", dump])
+        elif r < 0.75:
+            ops.append(["set", rng.choice(["S", "T", "R", "G"]), o, akey(), rng.choice(VALS), "=", dump])
+        elif r < 0.85:
+            ops.append(["del", rng.choice(["S", "T", "R", "G"]), o, akey(), dump])
+        elif r < 0.90:
+            ops.append([rng.choice(["has", "hasown"]), rng.choice(["S", "R"]), o, akey(), dump])
+        elif r < 0.94:
+            ops.append(["get", rng.choice(["S", "R", "G"]), o, akey(), "=", dump])
+        elif r < 0.97:
+            ops.append(["pe", rng.choice(["O", "R"]), o, dump])
+        else:
+            ops.append([rng.choice(["frz", "seal"]), o, dump])
+    return {"objs": objs, "ops": ops, "monitored": True}
+
+
+def gen_templated_case(rng, maxops=24):
+    """lazily-templated built-ins in a FRESH runtime: a symbol-keyed defineProperty (fresh symbol or one of the template's
+    well-known symbols) is, with probability 1/2, the very first operation that touches the object's symbol table"""
+    kind = rng.choice(TEMPLATED)
+    objs = [(kind, "-")]
+    if rng.random() < 0.5:
+        objs.append(("plain", rng.choice(["O", "o0"])))
+    n = len(objs)
+    wk = [WK[x] for x in EXPECTED_SYMS.get(kind, {})] or ["y5"]
+    symkeys = ["y0", "y1"] + wk + [rng.choice(list(WK.values()))]
+
+    def tkey():
+        r = rng.random()
+        if r < 0.45:
+            return rng.choice(symkeys)
+        if kind == "aproto" or r < 0.85:          # never index keys on Array.prototype: the harness itself pushes to arrays
+            return "s" + rng.choice(STRS + ["length", "name", "constructor"])
+        return rng.choice(["i", "I"]) + str(rng.choice(IDX))
+    nops = rng.randrange(2, maxops + 1)
+    ops = []
+    for j in range(nops):
+        o = "o0" if rng.random() < 0.8 else "o%d" % rng.randrange(n)
+        dump = "D" if (rng.random() < 0.45 or j == nops - 1) else "-"
+        if j == 0 and rng.random() < 0.5:
+            d = gen_desc(rng)
+            ops.append(["def", rng.choice(["O", "R", "G"]), "o0", rng.choice(symkeys)] + d + [dump])
+            continue
+        r = rng.random()
+        if r < 0.35:
+            ops.append(["def", rng.choice(["O", "R", "G"]), o, tkey()] + gen_desc(rng) + [dump])
+        elif r < 0.55:
+            ops.append(["set", rng.choice(["S", "T", "R", "G"]), o, tkey(), rng.choice(VALS), "=", dump])
+        elif r < 0.68:
+            ops.append(["get", rng.choice(["S", "R", "G"]), o, tkey(), "=", dump])
+        elif r < 0.80:
+            ops.append(["del", rng.choice(["S", "T", "R", "G"]), o, tkey(), dump])
+        elif r < 0.90:
+            ops.append([rng.choice(["has", "hasown"]), rng.choice(["S", "R"]), o, tkey(), dump])
+        elif r < 0.95:
+            ops.append(["pe", rng.choice(["O", "R"]), o, dump])
+        else:
+            ops.append([rng.choice(["frz", "seal"]), o, dump])
+    return {"objs": objs, "ops": ops, "monitored": True}
+
+
+def check_template_symbols(case, impl):
+    """first observed state of a templated built-in: every well-known-symbol property the spec gives it must be there with the
+    spec's attributes, unless an earlier op of the case named that key (or froze/sealed the object: presence only).
+    Returns a list of (signature, message)."""
+    out = []
+    lines = case_lines(case)
+    for oid, (kind, _) in enumerate(case["objs"]):
+        exp = EXPECTED_SYMS.get(kind)
+        if not exp:
+            continue
+        for li, l in enumerate(impl):
+            l0 = strip_impl(l)[0]
+            if " # " not in l0:
+                continue
+            od = [x.strip() for x in l0.split(" # ", 1)[1].split(" | ") if x.strip().startswith("O%d " % oid)]
+            if not od:
+                break
+            props = parse_props(od[0])
+            keys = od[0].split("keys=[", 1)[1].split("]", 1)[0].split(",")
+            before = [x.split() for x in lines[:li + 1]]
+            hardened = any(w[0] in ("frz", "seal", "pe") and w[1 if w[0] != "pe" else 2] == "o%d" % oid for w in before)
+            for name, want in exp.items():
+                tk = WK[name]
+                if any(len(w) > 3 and w[0] in ("def", "set", "del") and w[3] == tk for w in before):
+                    continue
+                if tk not in props or tk not in keys:
+                    out.append(("template-symbol-missing:%s:%s" % (kind, name),
+                                "%s lost its own property Symbol.%s (spec attributes %s) although no operation named that key; first symbol-keyed ops: %s"
+                                % (kind, name, want, [" ".join(w) for w in before if len(w) > 3 and w[3].startswith("y")][:3])))
+                    continue
+                got = props[tk]
+                g = got[0] + "/" + ("/".join(got[2:]) if got[0] == "D" else "/".join(got[3:]))
+                if not hardened and g != want:
+                    out.append(("template-symbol-attrs:%s:%s" % (kind, name),
+                                "%s[Symbol.%s] has attributes %s, spec %s" % (kind, name, g, want)))
+            break
+    return out
+
+
 def gen_case(rng, monitored=False, maxops=40):
+    if monitored:
+        r = rng.random()
+        if r < 0.30:
+            return gen_array_case(rng, maxops)
+        if r < 0.60:
+            return gen_templated_case(rng)
     n = rng.choice([2, 3, 3, 4])
     objs = []
     for i in range(n):
         if monitored and i == n - 1:
-            kind = rng.choice(MONITORED)
+            kind = rng.choice(GENERAL_MONITORED)
         elif monitored and rng.random() < 0.25:
-            kind = rng.choice(MONITORED)
+            kind = rng.choice(GENERAL_MONITORED)
         else:
             kind = "plain" if rng.random() < 0.65 else rng.choice(MODELLED)
         proto = "-"
@@ -521,6 +694,24 @@ def main(ctx):
                       "corpus_cases": len(corpus)})
     for c in cases[len(corpus):len(corpus) + 4]:
         ctx.sample(" ; ".join(case_lines(c))[:600])
+
+    # spec attributes of the well-known-symbol properties of templated built-ins at their first observed state
+    tmpl_bad, seen_t = 0, set()
+    n_tmpl = 0
+    for c, (impl, mdl) in zip(cases, results):
+        if not any(k in EXPECTED_SYMS and EXPECTED_SYMS[k] for k, _ in c["objs"]):
+            continue
+        n_tmpl += 1
+        for sig, msg in check_template_symbols(c, impl):
+            tmpl_bad += 1
+            if sig in seen_t:
+                continue
+            seen_t.add(sig)
+            ctx.violation(sig, msg, {"kind": "history", "objs": c["objs"], "ops": c["ops"], "lines": case_lines(c),
+                                     "observed": [strip_impl(x)[0][:600] for x in impl]})
+    ctx.stats["templated_cases_checked"] = n_tmpl
+    ctx.obligation("builtin-template-symbols(spec attributes at first observation)", "correspondence", tmpl_bad == 0,
+                   "%d cases on lazily-templated built-ins in fresh runtimes; %d deviations" % (n_tmpl, tmpl_bad))
 
     # a harness process that died (fatal Go error: stack overflow, ...) or hung takes the rest of its shard with it
     ctx.obligation("harness-completed-every-case", "correspondence", not crashed,
